@@ -747,6 +747,7 @@ Proof.
     apply inv_drop_objs. rewrite app_nil_r.
     eapply inv_set_body; [apply lookup_b_nth; eauto| |exact I]. intros o. cbn [bref bfds]. lia.
   - (* Send *) destruct (lookup_b s b) as [bd|] eqn:E; cbn [fst]; auto.
+    destruct (negb (len (get_raw_fds s bd) =? len (bfds bd))); cbn [fst]; auto.
     destruct (SCM_MAX_FD <? len (get_raw_fds s bd)); cbn [fst]; auto.
     apply inv_emit_msg; cbn; auto.
   - (* Inject *) destruct (forallb _ cs); cbn [fst]; auto.
@@ -862,6 +863,7 @@ Proof.
   - destruct (lookup_b s b); cbn [fst]; auto. apply (wire_ok_wkey s); [|exact W]. now rewrite wkey_drop_objs.
   - destruct (lookup_b s b); cbn [fst]; auto. apply (wire_ok_wkey s); [|exact W]. now rewrite wkey_drop_objs.
   - destruct (lookup_b s b) as [bd|]; cbn [fst]; auto.
+    destruct (negb _); cbn [fst]; auto.
     destruct (SCM_MAX_FD <? _); cbn [fst]; auto.
     unfold wire_ok, sent_msgs, recv_msgs in *. cbn. rewrite W, map_app, app_assoc. reflexivity.
   - destruct (forallb _ cs); cbn [fst]; auto.
@@ -1279,23 +1281,60 @@ Proof.
   unfold get_raw_fds. rewrite in_filter_some, in_map_iff. intros (o & E & Ho). eauto.
 Qed.
 
-Lemma send_spec s b bd s' hdr n :
-  inv0 [] s -> lookup_b s b = Some bd -> step s (Send b) = (s', RSent hdr n) ->
-  hdr = len (bfds bd) /\ n = len (get_raw_fds s bd) /\ n <= SCM_MAX_FD
-  /\ wire s' = wire s ++ [(ofds_of s (get_raw_fds s bd), bidx bd)]
-  /\ len (ofds_of s (get_raw_fds s bd)) = n
-  /\ ((forall o, In o (bfds bd) -> cell (objs s o) <> None) -> n = hdr)
-  /\ tab s' = tab s /\ objs s' = objs s /\ hnd s' = hnd s /\ cfds s' = cfds s /\ bods s' = bods s
-  /\ closes s' = closes s.
+Lemma len_filter_some_le {A} (l : list (option A)) : len (filter_some l) <= len l.
 Proof.
-  intros I Hb H. cbn [step] in H. rewrite Hb in H.
-  destruct (N.ltb_spec SCM_MAX_FD (len (get_raw_fds s bd))); [discriminate|].
-  injection H as <- <- <-. repeat split; auto.
-  - unfold ofds_of. rewrite len_filter_some_all, len_map; auto.
-    intros x Hx. apply in_map_iff in Hx. destruct Hx as (f & <- & Hf).
-    apply in_get_raw_fds in Hf. destruct Hf as (o & _ & Hc). now apply (i_cell _ _ I) in Hc.
-  - intros Hall. unfold get_raw_fds. rewrite len_filter_some_all, len_map; auto.
-    intros x Hx. apply in_map_iff in Hx. destruct Hx as (o & <- & Ho). auto.
+  induction l as [|[x|] l IH]; cbn [filter_some]; rewrite ?len_cons; try lia. rewrite len_nil. lia.
+Qed.
+Lemma filter_some_full {A} (l : list (option A)) : len (filter_some l) = len l -> l = map Some (filter_some l).
+Proof.
+  induction l as [|[x|] l IH]; cbn [filter_some map]; intros H; auto.
+  - rewrite !len_cons in H. f_equal. apply IH. lia.
+  - pose proof (len_filter_some_le l). rewrite len_cons in H. lia.
+Qed.
+Lemma filter_some_short {A} (l : list (option A)) : In None l -> len (filter_some l) <> len l.
+Proof.
+  induction l as [|[x|] l IH]; cbn [filter_some]; intros H; [destruct H| |].
+  - destruct H as [H|H]; [discriminate|]. rewrite !len_cons. specialize (IH H). lia.
+  - pose proof (len_filter_some_le l). rewrite len_cons. lia.
+Qed.
+
+(** Sending: a body one of whose handles was taken is refused and nothing changes; a message that
+    is sent carries ALL the body's descriptors, in order, and UNIX_FDS is their number *)
+Lemma send_spec s b bd s' r :
+  inv0 [] s -> lookup_b s b = Some bd -> step s (Send b) = (s', r) ->
+  ((exists o, In o (bfds bd) /\ cell (objs s o) = None) -> r = RErr /\ s' = s)
+  /\ (forall hdr n, r = RSent hdr n ->
+        map (fun o => cell (objs s o)) (bfds bd) = map Some (get_raw_fds s bd)
+        /\ hdr = len (bfds bd) /\ n = hdr /\ n <= SCM_MAX_FD
+        /\ wire s' = wire s ++ [(ofds_of s (get_raw_fds s bd), bidx bd)]
+        /\ map Some (ofds_of s (get_raw_fds s bd)) = map (tab s) (get_raw_fds s bd)
+        /\ len (ofds_of s (get_raw_fds s bd)) = n
+        /\ tab s' = tab s /\ objs s' = objs s /\ hnd s' = hnd s /\ cfds s' = cfds s /\ bods s' = bods s
+        /\ closes s' = closes s)
+  /\ (r = RErr \/ exists hdr n, r = RSent hdr n).
+Proof.
+  intros I Hb H. cbn [step] in H. rewrite Hb in H. unfold get_raw_fds in *.
+  set (cells := map (fun o => cell (objs s o)) (bfds bd)) in *.
+  assert (Hlc : len cells = len (bfds bd)) by (unfold cells; apply len_map).
+  destruct (N.eqb_spec (len (filter_some cells)) (len (bfds bd))) as [E|E]; cbn [negb] in H.
+  2:{ injection H as <- <-. repeat split; auto; discriminate. }
+  destruct (N.ltb_spec SCM_MAX_FD (len (filter_some cells))) as [L|L].
+  { injection H as <- <-. split; [|split; [discriminate|auto]].
+    intros (o & Ho & Hc). exfalso. apply (filter_some_short cells); [|congruence].
+    unfold cells. apply in_map_iff. exists o. auto. }
+  injection H as <- <-. split; [|split; [|right; eauto]].
+  - intros (o & Ho & Hc). exfalso. apply (filter_some_short cells); [|congruence].
+    unfold cells. apply in_map_iff. exists o. auto.
+  - intros hdr n [= <- <-].
+    assert (Hfull : cells = map Some (filter_some cells)) by (apply filter_some_full; congruence).
+    assert (Hopen : forall f, In f (filter_some cells) -> tab s f <> None).
+    { intros f Hf. apply in_filter_some in Hf. unfold cells in Hf. apply in_map_iff in Hf.
+      destruct Hf as (o & Hc & _). now apply (i_cell _ _ I) in Hc. }
+    assert (Hof : map (tab s) (filter_some cells) = map Some (ofds_of s (filter_some cells))).
+    { unfold ofds_of. apply filter_some_full. rewrite len_filter_some_all, len_map; auto.
+      intros x Hx. apply in_map_iff in Hx. destruct Hx as (f & <- & Hf). auto. }
+    repeat split; auto; try congruence.
+    apply (f_equal len) in Hof. rewrite !len_map in Hof. congruence.
 Qed.
 
 Lemma recv_fds_objs ofds s :
